@@ -46,6 +46,13 @@ def ensure_streams(app: appboot.App):
                             samples_per_segment=[188, 187, 188, 187, 187], seed=32, track_id=2,
                             start_number=7, sample_durations_in="trun")
     mp4synth.register(app, "syn3", "Synthetic numbered from 7", {"syn3_v1": v, "syn3_a1": a}, timing_from="syn3_v1")
+    # syn4: the *audio* track is the timing reference and does not last a whole number of seconds
+    # (315392/44100 = 7.151746 s) – declared presentation durations must keep the fraction; video drift -107
+    v = mp4synth.make_track("video", 12800, [25600, 25600, 25600, 14848], samples_per_segment=4,
+                            seed=41, track_id=1)
+    a = mp4synth.make_track("audio", 44100, [88064, 88064, 88064, 51200], samples_per_segment=86,
+                            seed=42, track_id=2)
+    mp4synth.register(app, "syn4", "Synthetic audio reference", {"syn4_v1": v, "syn4_a1": a}, timing_from="syn4_a1")
     _STREAMS_READY = True
 
 
